@@ -157,4 +157,27 @@ Definition alpha_cut (p : pbox) (a : N) : N * N :=
   let i := find_nearest p_values a in (nth0 (fst p) i, nth0 (snd p) i).
 Definition pcdf (p : pbox) (x : N) : N * N :=
   (nth0 p_values (find_nearest (snd p) x), nth0 p_values (find_nearest (fst p) x)).
+(* discretise(n): the focal intervals themselves for the native count, else alpha-cuts on linspace(p_lo, p_hi, n) *)
+Definition discretise (p : pbox) (n : nat) : list (N * N) :=
+  if Nat.eqb n steps then combine (fst p) (snd p) else map (alpha_cut p) (linspace p_lo p_hi n).
+(* outer_discretisation(n): left bound at the lower level paired with right bound at the upper level *)
+Definition outer_levels (n : option nat) : list N := match n with Some k => linspace p_lo p_hi k | None => p_values end.
+Definition outer_discretisation (p : pbox) (n : option nat) : list (N * N) :=
+  let pv := outer_levels n in
+  map2 (fun a b => (fst (alpha_cut p a), snd (alpha_cut p b))) (removelast pv) (tl pv).
+(* condensation(n) = stacking of the outer intervals with equal weights 1/len *)
+Definition equal_weights (k : nat) : list N := repeat (none / nofZ N (Z.of_nat k)) k.
+Definition pcondensation (p : pbox) (n : nat) : res pbox :=
+  let iv := outer_discretisation p (Some n) in
+  stacking (map fst iv) (map snd iv) (equal_weights (length iv)).
+(* get_PI(alpha, style): Interval(lo, hi) asserts lo <= hi; 'narrowest' falls back to 'widest' *)
+Definition pi_levels (alpha : N) : N * N := let lc := (none - alpha) / nofZ N 2 in (lc, none - lc).
+Definition pi_widest (p : pbox) (alpha : N) : res (N * N) :=
+  let '(lc, hc) := pi_levels alpha in
+  let lo := fst (alpha_cut p lc) in let hi := snd (alpha_cut p hc) in
+  if lo <=? hi then Ok (lo, hi) else Raise AssertionErr.
+Definition pi_narrowest (p : pbox) (alpha : N) : res (N * N) :=
+  let '(lc, hc) := pi_levels alpha in
+  let lo := snd (alpha_cut p lc) in let hi := fst (alpha_cut p hc) in
+  if lo <=? hi then Ok (lo, hi) else pi_widest p alpha.
 End P.
